@@ -34,6 +34,11 @@ func batches() []batch {
 		}
 		out = append(out, batch{fmt.Sprintf("noctx|%s", k)}, batch{fmt.Sprintf("cancel|%s", k)}, batch{fmt.Sprintf("server|%s", k)}, batch{fmt.Sprintf("lifecycle|%s", k)})
 	}
+	for _, k := range []kit.Kind{kit.SJSON, kit.SSSE, kit.LSSE} {
+		for _, op := range errOps[k == kit.LSSE] {
+			out = append(out, batch{fmt.Sprintf("errstatus|%s|%s", k, op)})
+		}
+	}
 	for _, g := range []string{"signals", "script", "cancel"} {
 		out = append(out, batch{"stdio|" + g})
 	}
@@ -195,6 +200,8 @@ func child() {
 		case "c":
 			schedC(rep, seed)
 		}
+	case "errstatus":
+		errStatusBatch(rep, kit.Kind(parts[1]), parts[2], rng, thorough)
 	case "lifecycle":
 		n := 10
 		if thorough {
@@ -271,6 +278,8 @@ func main() {
 	r.Require(r.Counter("sched_races_set_up") >= 5, "only %d of 5 yield-controlled races were set up", r.Counter("sched_races_set_up"))
 	r.Require(r.Counter("server_peers_vanished_with_running_handler") > 0 && r.Counter("server_peers_vanished_with_listening_stream") > 0 && r.Counter("server_peers_vanished_with_pending_server_request") > 0, "server side: peers did not vanish with handlers / streams / server requests pending")
 	r.Require(r.Counter("stdio_clients_closed") > 0, "no stdio close stress")
+	r.Require(r.Counter("http_error_answers_delivered") >= 500 && r.Counter("errstatus_classes_measured") >= 100 && r.Counter("errstatus_errors_returned") > 0,
+		"calls ending with an HTTP error answer: only %d answers delivered, %d classes measured, %d errors returned", r.Counter("http_error_answers_delivered"), r.Counter("errstatus_classes_measured"), r.Counter("errstatus_errors_returned"))
 	r.Finish("cases = (client kind in {S-json, S-sse, L-sse (legacy), stdio}) x (fault kind in {close, rst, stall, truncate; kill -9 / SIGTERM / exit / SIGSTOP / close-stdout for stdio; cancel, deadline; delayed / withheld terminating chunk}) x (point: every message boundary of the exchange - before the request is forwarded, after the request, after the response headers / the 202, between SSE events, before the final event, before the terminating chunk, on the legacy stream before / after the endpoint event, while calls are pending, before / after the answer event; stdio: before the first call, while pending, between calls, before / inside / after the response line - exhaustively; byte offsets inside request, response head, body / event: first byte, last byte and seeded samples) x pending calls in {1, 2, 8}, for target = the call, the Initialize handshake, and the client's listening stream; plus yield-controlled schedules of the three known races and the server side (N, 2N peers with listening streams, running handlers and pending server requests vanish by close / FIN / RST). Oracle per call: returns within 10 s of the fault (else goroutine dump must show it parked in the library), outcome is an error or the call's own complete answer (nonce + digest + length), context errors for cancellation; per case: Close returns, pending tables empty, and goroutines with library frames / persistConn loops / fds / child processes at quiescence do not grow case after case of the same class. Distinct = (kind, target, fault@point, pending count, outcome class) with the fault actually delivered.",
 		[]string{
 			"byte offsets and cancellation instants are sampled (seeded, fixed counts); message boundaries x fault kinds x transports x pending counts are enumerated completely",
